@@ -116,7 +116,7 @@ var harness = &simcore.Harness{
 		"validator 2 (power 3 of 10) is held by the simulator: it signs honest probe votes / evidence and, through hostile peers, validly signed hostile proposals and votes",
 	},
 	Assumptions: []string{
-		"a panic inside Receive on the peer's receive goroutine is 'peer dropped' (MConnection._recover); a panic anywhere else is a crash. A crash in a goroutine the node spawned itself kills the worker process (exit 2, seed printed): such crashes are predicted one step ahead by probing the peer state the hostile message left behind with the same BitArray operations the gossip routines perform (sig gossip-crash-*)",
+		"a panic inside Receive on the peer's receive goroutine is 'peer dropped' (MConnection._recover); a panic anywhere else is a crash. A crash in a goroutine the node spawned itself kills the worker process (exit 2, seed printed): such crashes are predicted one step ahead by probing the peer state the hostile message left behind with the same BitArray operations the gossip routines perform (sig gossip-crash-*); likewise a block response that passed the blockchain reactor's validation is run through the calls poolRoutine makes on a pooled block (Hash, MakePartSet, VerifyCommit of its LastCommit) before the pool's next tick (sig bc-pool-crash:*)",
 		"allocation oracle: bytes allocated by the process during one stimulus (runtime.MemStats.TotalAlloc) may exceed a generous budget (24 MiB + 16x message size + 32 MiB per simulated second) only by attacker-chosen amounts; attacker-chosen sizes are capped at 2^24 so that the largest induced allocation stays around 128 MiB",
 		"event order inside the node (per-peer gossip goroutines waking at the same fake instant) is not owned by the simulator; the event log contains only the simulator's own actions and the oracle only facts that hold at quiescence",
 	},
